@@ -537,3 +537,107 @@ Theorem lex_print_comb : forall o c, wf_comb o c = true -> lex2 (print_comb o c)
 Proof.
   intros o c H. pose proof (LexTo_comb o c H [] I) as L. rewrite app_nil_r in L. rewrite L. cbn. now rewrite app_nil_r.
 Qed.
+
+(** * corollaries *)
+Lemma lex_print_tref : forall t, wf_tref t = true -> lex2 (print_tref t) = Some (toks_tref t).
+Proof.
+  intros t H. pose proof (LexTo_tref t H [] I) as L. rewrite app_nil_r in L. rewrite L. cbn. now rewrite app_nil_r.
+Qed.
+
+Lemma parse_ty_top_toks : forall t, wf_tref t = true -> parse_ty_top (toks_tref t) = POk t [].
+Proof.
+  intros t H. unfold parse_ty_top. rewrite <- (app_nil_r (toks_tref t)) at 2.
+  apply (proj1 parse_toks); [assumption|reflexivity|lia].
+Qed.
+
+Theorem parse_print_tref : forall t, wf_tref t = true -> parse_ty_bytes (print_tref t) = Some (POk t []).
+Proof. intros t H. unfold parse_ty_bytes. now rewrite lex_print_tref, parse_ty_top_toks. Qed.
+
+Theorem print_tref_inj : forall t1 t2, wf_tref t1 = true -> wf_tref t2 = true -> print_tref t1 = print_tref t2 -> t1 = t2.
+Proof.
+  intros t1 t2 H1 H2 E. pose proof (parse_print_tref t1 H1) as P1. rewrite E, (parse_print_tref t2 H2) in P1. congruence.
+Qed.
+
+Theorem toks_tref_inj : forall t1 t2, wf_tref t1 = true -> wf_tref t2 = true -> toks_tref t1 = toks_tref t2 -> t1 = t2.
+Proof.
+  intros t1 t2 H1 H2 E. pose proof (parse_ty_top_toks t1 H1) as P1. rewrite E, (parse_ty_top_toks t2 H2) in P1. congruence.
+Qed.
+
+(* a type reference in front of anything that cannot continue it: the parser stops exactly there *)
+Theorem parse_print_tref_tail : forall t tail rest, wf_tref t = true -> nid tail -> lex2 tail = Some rest -> hd_is 60 rest = false ->
+  parse_ty_bytes (print_tref t ++ tail) = Some (POk t rest).
+Proof.
+  intros t tail rest H Ht Hl Hr. unfold parse_ty_bytes. rewrite (LexTo_tref t H tail Ht), Hl. cbn [prepend].
+  unfold parse_ty_top. f_equal. apply (proj1 parse_toks); [assumption|assumption|rewrite app_length; lia].
+Qed.
+
+(** the option sets *)
+Lemma wf_comment_ignore : forall o o' c, o_ignore o' = true -> wf_comment o c = true -> wf_comment o' c = true.
+Proof. intros o o' c H _. unfold wf_comment. now rewrite H. Qed.
+
+Lemma wf_field_ignore : forall o o' f, o_ignore o' = true -> wf_field o f = true -> wf_field o' f = true.
+Proof.
+  intros o o' f Hi H. unfold wf_field in *. apply andb_true_iff in H. destruct H as [H1 H2].
+  rewrite H1. eapply wf_comment_ignore; eauto.
+Qed.
+
+Lemma forallb_impl : forall A (p q : A -> bool) l, (forall a, p a = true -> q a = true) -> forallb p l = true -> forallb q l = true.
+Proof. intros A p q l H. rewrite !forallb_forall. auto. Qed.
+
+Lemma wf_variant_ignore : forall o o' v, o_ignore o' = true -> wf_variant o v = true -> wf_variant o' v = true.
+Proof.
+  intros o o' v Hi H. unfold wf_variant in *. apply andb_true_iff in H. destruct H as [H H3].
+  apply andb_true_iff in H. destruct H as [H1 H2]. rewrite H1, (wf_comment_ignore o o' _ Hi H2). cbn [andb].
+  destruct (v_body v); [assumption|]. eapply forallb_impl; [|exact H3]. intros; eapply wf_field_ignore; eauto.
+Qed.
+
+Lemma wf_comb_ignore : forall o o' c, o_ignore o' = true -> wf_comb o c = true -> wf_comb o' c = true.
+Proof.
+  intros o o' c Hi H. unfold wf_comb in *. apply andb_true_iff in H. destruct H as [H H3].
+  apply andb_true_iff in H. destruct H as [H1 H2]. rewrite H2, (wf_comment_ignore o o' _ Hi H1). cbn [andb].
+  destruct (c_decl c) as [nm m ps d|nm m args d]; cbn [wf_decl] in *;
+    apply andb_true_iff in H3; destruct H3 as [H3 H4]; rewrite H3; cbn [andb];
+    (destruct d; cbn [wf_def] in *; [assumption| |]; (eapply forallb_impl; [|exact H4]); intros;
+     [eapply wf_field_ignore|eapply wf_variant_ignore]; eauto).
+Qed.
+
+Definition is_union (c : comb) : bool :=
+  match c_decl c with
+  | DType _ _ _ (DUnion _) | DFunc _ _ _ (DUnion _) => true
+  | _ => false
+  end.
+
+Lemma toks_comb_bar_irrelevant : forall c b1 b2, is_union c = false -> toks_comb b1 c = toks_comb b2 c.
+Proof.
+  intros [cm anns [nm m ps d|nm m args d]] b1 b2 H; unfold is_union in H; cbn in H; destruct d; try discriminate; reflexivity.
+Qed.
+
+(* the default and the canonical layout of a declaration carry the same tokens -- up to the leading bar of a union *)
+Theorem fmt2_options_same_tokens : forall c, wf_comb default_options c = true ->
+  lex2 (print_comb default_options c) = Some (toks_comb (comb_bar default_options c) c) /\
+  lex2 (print_comb canonical_options c) = Some (toks_comb (comb_bar canonical_options c) c) /\
+  (is_union c = false -> lex2 (print_comb default_options c) = lex2 (print_comb canonical_options c)).
+Proof.
+  intros c H. assert (H' : wf_comb canonical_options c = true) by (eapply wf_comb_ignore; eauto).
+  repeat split; try (now apply lex_print_comb).
+  intro U. rewrite !lex_print_comb by assumption. f_equal. now apply toks_comb_bar_irrelevant.
+Qed.
+
+(** F8: a union with one variant loses its bar *)
+Definition nA : str := [65].
+Definition tA : tref := TApp (TName [] nA) false [].
+Definition f8_union : comb := Comb [] [] (DFunc (TName [] [102]) 1 [] (DUnion [Variant nA [] (VFields [])])).
+Definition f8_struct : comb := Comb [] [] (DFunc (TName [] [102]) 1 [] (DStruct [Field [] false false [] tA])).
+Definition f8_type_union : comb := Comb [] [] (DType (TName [] [97]) 0 [] (DUnion [Variant nA [] (VFields [])])).
+Definition f8_type_struct : comb := Comb [] [] (DType (TName [] [97]) 0 [] (DStruct [Field [] false false [] tA])).
+
+Theorem fmt2_refuted_single_variant :
+  exists c c', c <> c' /\
+    wf_comb default_options c = true /\ wf_comb default_options c' = true /\
+    (forall o, o = default_options \/ o = canonical_options -> print_comb o c = print_comb o c') /\
+    is_union c = true /\ is_union c' = false /\ comb_bar canonical_options c = false.
+Proof.
+  exists f8_union, f8_struct. split; [discriminate|].
+  split; [vm_compute; reflexivity|]. split; [vm_compute; reflexivity|].
+  split; [intros o [-> | ->]; vm_compute; reflexivity|]. repeat split; vm_compute; reflexivity.
+Qed.
